@@ -79,6 +79,37 @@ func (ex *Exec) callStd2(full string, fobj *types.Func, args []Value, e *ast.Cal
 		ex.st.ranges[errv] = bi(1 << 20)
 		ex.st.addFact(Lt(IntI(1000), errv), "hex error is non-nil and not a package error")
 		return TupleV{m.partial, errv}
+	case "crypto/subtle.ConstantTimeEq", "crypto/subtle.ConstantTimeByteEq":
+		x, y := args[0].(*Term), args[1].(*Term)
+		it := machType(types.Typ[types.Int])
+		return Ite(Eq(x, y), ex.constOf(bi(1), it), ex.constOf(bi(0), it))
+	case "crypto/subtle.ConstantTimeLessOrEq":
+		x, y := args[0].(*Term), args[1].(*Term)
+		it := machType(types.Typ[types.Int])
+		ex.oblige("call", "ConstantTimeLessOrEq#pre:range@"+ex.where(e), And(Le(IntI(0), x), Lt(x, IntC(pow2(31))), Le(IntI(0), y), Lt(y, IntC(pow2(31)))), "")
+		return Ite(Le(x, y), ex.constOf(bi(1), it), ex.constOf(bi(0), it))
+	case "crypto/subtle.ConstantTimeCompare", "bytes.Equal":
+		a, b := args[0].(SliceV), args[1].(SliceV)
+		var eq *Term
+		switch {
+		case a.Abs != nil || b.Abs != nil:
+			eq = Eq(ex.strOf(a), ex.strOf(b))
+		case a.SymLen != nil || b.SymLen != nil:
+			ex.unsupported("comparison of slices of unknown length at %s", ex.where(e))
+		case a.Len != b.Len:
+			eq = BoolC(false)
+		default:
+			var parts []*Term
+			for i := 0; i < a.Len; i++ {
+				parts = append(parts, Eq(ex.resolve(a.Obj.Cells[a.Off+i]).(*Term), ex.resolve(b.Obj.Cells[b.Off+i]).(*Term)))
+			}
+			eq = And(parts...)
+		}
+		if full == "bytes.Equal" {
+			return eq
+		}
+		it := machType(types.Typ[types.Int])
+		return Ite(eq, ex.constOf(bi(1), it), ex.constOf(bi(0), it))
 	case "slices.Grow":
 		// slices.Grow(s, n): the same slice when cap(s)-len(s) >= n, otherwise a copy with larger capacity
 		sl := args[0].(SliceV)
